@@ -88,6 +88,7 @@ type Case struct {
 	Frag       *Frag     `json:"frag,omitempty"`        // C08
 	SrcFault   *SrcFault `json:"src_fault,omitempty"`   // C10
 	Cut        *int      `json:"cut,omitempty"`         // C11: durable prefix length
+	ReadMode   string    `json:"read_mode,omitempty"`   // client variant of the reader ("" = documented loop; errcheck)
 
 	Tasks []TaskSpec `json:"tasks,omitempty"` // C13
 	Sched *SchedSpec `json:"sched,omitempty"`
